@@ -190,7 +190,9 @@ def disturb(P, mode, rule, s, i, kind):
         g = rule.lparse(s, i)
         try:
             next(g)
-        except (StopIteration, P.ParseError, P.GrammarError, RecursionError):
+        except StopIteration:
+            return
+        except Exception:  # noqa - whatever the library raises here, the measured request will show it as its outcome
             return
         held.append(g)
 
